@@ -272,7 +272,7 @@ Init ==
   /\ jlines \in (IF q.join = "none" THEN {<<>>} ELSE JoinLineSets)
   /\ mode \in Modes
   /\ mode = "incr" => q.limit = NoLimit                     \* with a join: ExecutionEngine::with_executed_joined_table, then line by line
-  /\ mode = "follow" => (q.join = "none" /\ (IsAgg => q.limit = NoLimit) /\ Len(files) = 1)      \* FollowFileExecutor: one file, no join
+  /\ mode = "follow" => (q.join = "none" /\ Len(files) = 1)      \* FollowFileExecutor: one file, no join
   /\ intr \in InterruptPoints
   /\ (intr.at = "join") => q.join # "none"
   /\ (intr.at # "none") => mode = "batch"
@@ -387,11 +387,18 @@ ReadLine ==
                                        ELSE "read"
                               /\ UNCHANGED groups
                       ELSE LET u == UpdateLine(envs, groups, FALSE)
+                               \* follow mode, aggregate with LIMIT (as built, no property speaks about it except C06): every table shown is the whole
+                               \* table; its rows (those with a value) are added to the row count, and the run ends once that count reaches the limit.
+                               \* Only lines on which a row passed show a table -- a line that yields no row must not move the count.
+                               shown == EngTableOf(u[2])
+                               counts == mode = "follow" /\ HasLimit /\ u[1] = "ok" /\ u[3] /\ shown.st = "ok"
+                               cnt == IF counts THEN Len(SelectSeq(shown.recs, LAMBDA t : \E i \in 1..Len(t) : ~IsNull(t[i]))) ELSE 0
                            IN /\ groups' = u[2]
                               /\ running' = run1
                               /\ status' = IF u[1] # "ok" THEN u[1] ELSE status
-                              /\ pc' = IF u[1] # "ok" THEN "done" ELSE "read"
-                              /\ UNCHANGED <<seen, nout, printed>>
+                              /\ nout' = nout + cnt
+                              /\ pc' = IF u[1] # "ok" THEN "done" ELSE IF counts /\ nout + cnt >= q.limit THEN "final" ELSE "read"
+                              /\ UNCHANGED <<seen, printed>>
                               /\ steps' = IF mode \notin {"incr", "follow"} THEN steps
                                            ELSE IF u[1] # "ok" THEN Append(steps, Out(<<>>, u[1]))
                                            \* no row passed: nothing new is shown (the step carries the current table: a driver that re-shows it shows the same)
